@@ -203,9 +203,35 @@ def run_cli(args, data=None, via='file', path=None, stats=True, timeout=120, wor
     t0 = time.time()
     r = CliResult()
     try:
-        p = subprocess.run(cmd, input=inp, stdout=subprocess.PIPE, stderr=subprocess.PIPE, timeout=timeout, env=env,
-                           stdin=None if inp is not None else subprocess.DEVNULL)
-        r.exit = p.returncode; r.stdout = p.stdout; r.stderr = p.stderr.decode('utf-8', 'replace'); r.timeout = False
+        if via == 'pipe_bursty':
+            # a producer that delivers the stream in two bursts with a pause in between (a slow upstream tool)
+            import threading
+            pr = subprocess.Popen(cmd, stdin=subprocess.PIPE, stdout=subprocess.PIPE, stderr=subprocess.PIPE, env=env)
+            cut = max(1, len(inp) * 55 // 100)
+
+            def feed():
+                try:
+                    pr.stdin.write(inp[:cut]); pr.stdin.flush(); time.sleep(1.2); pr.stdin.write(inp[cut:])
+                except Exception: pass
+                try: pr.stdin.close()
+                except Exception: pass
+            th = threading.Thread(target=feed, daemon=True); th.start()
+            out, err = b'', b''
+            try:
+                pr.stdin_closed_by_feeder = True
+                so, se = [], []
+                t1 = threading.Thread(target=lambda: so.append(pr.stdout.read()), daemon=True); t1.start()
+                t2 = threading.Thread(target=lambda: se.append(pr.stderr.read()), daemon=True); t2.start()
+                pr.wait(timeout=timeout); t1.join(10); t2.join(10); th.join(10)
+                out, err = (so[0] if so else b''), (se[0] if se else b'')
+                r.exit = pr.returncode; r.stdout = out; r.stderr = err.decode('utf-8', 'replace'); r.timeout = False
+            except subprocess.TimeoutExpired:
+                pr.kill(); pr.wait()
+                r.exit = None; r.stdout = b''; r.stderr = ''; r.timeout = True
+        else:
+            p = subprocess.run(cmd, input=inp, stdout=subprocess.PIPE, stderr=subprocess.PIPE, timeout=timeout, env=env,
+                               stdin=None if inp is not None else subprocess.DEVNULL)
+            r.exit = p.returncode; r.stdout = p.stdout; r.stderr = p.stderr.decode('utf-8', 'replace'); r.timeout = False
     except subprocess.TimeoutExpired as e:
         r.exit = None; r.stdout = e.stdout or b''; r.stderr = (e.stderr or b'').decode('utf-8', 'replace'); r.timeout = True
     r.wall = time.time() - t0
